@@ -25,7 +25,7 @@ pub trait Visitor: Sync {
 }
 
 pub fn decode(bytes: &[u8]) -> Decoded {
-    guarded(|| Message::try_from(bytes).map_err(|e| e.to_string()))
+    guarded_watch(bytes, || Message::try_from(bytes).map_err(|e| e.to_string()))
 }
 
 fn reg<T>(mb: &[u8; 7]) -> RegOut
